@@ -155,9 +155,72 @@ func runSharedSlice(variant string, calls []string) (string, string) {
 	return "", ""
 }
 
+// countingSink counts the writes it receives (one per record for the JSON logger).
+type countingSink struct{ lines []string }
+
+func (s *countingSink) Write(p []byte) (int, error) {
+	s.lines = append(s.lines, string(p))
+	return len(p), nil
+}
+func (s *countingSink) Close() error           { return nil }
+func (s *countingSink) SetSource(string) error { return nil }
+
+// unusualMessages: messages that are empty or made of white space only (and ordinary ones between them). The JSON logger
+// documents one exception: a message that is exactly "\n" is ignored.
+var unusualMessages = []string{"", " ", "\t", "\r\n", "\n\n", "x", " x ", "\n", "  \t "}
+
+// runUnusualMessages: calls = indices into unusualMessages, logged alternately on the two streams of a JSON logger that is also
+// a member of a composite next to a recording member: every message is a record of the JSON sink (but the lone "\n"), and both
+// members are handed every message.
+func runUnusualMessages(calls []string) (string, string) {
+	sink := &countingSink{}
+	jl, err := logs.NewJSONLogger(sink, "lsrc", "src")
+	if err != nil {
+		return "engine", err.Error()
+	}
+	rec := &plainRec{name: "rec"}
+	multi, err := logs.NewMultipleLoggers("t", jl, rec)
+	if err != nil {
+		return "engine", err.Error()
+	}
+	want := 0
+	for i, c := range calls {
+		var m string
+		if _, e := fmt.Sscanf(c, "%d", new(int)); e == nil {
+			var k int
+			fmt.Sscanf(c, "%d", &k)
+			m = unusualMessages[k%len(unusualMessages)]
+		}
+		if m != "\n" {
+			want++
+		}
+		if i%2 == 0 {
+			multi.Log(m)
+		} else {
+			multi.LogError(m)
+		}
+	}
+	if len(rec.msgs) != len(calls) {
+		return "member-missed-message:logger=multiple:unusual-message", fmt.Sprintf("the recording member received %d of %d messages", len(rec.msgs), len(calls))
+	}
+	if len(sink.lines) != want {
+		return "message-lost-or-duplicated:logger=json:unusual-message", fmt.Sprintf("%d messages logged (the lone line feed excepted), %d records in the sink: %q", want, len(sink.lines), sink.lines)
+	}
+	for _, l := range sink.lines {
+		var r map[string]any
+		if json.Unmarshal([]byte(l), &r) != nil {
+			return "garbled-line:logger=json:unusual-message", fmt.Sprintf("not one JSON record: %q", l)
+		}
+	}
+	return "", ""
+}
+
 func runSeqCase(dir string, c seqCase) (string, string) {
-	if c.Scenario == "sequence:shared-file" {
+	switch c.Scenario {
+	case "sequence:shared-file":
 		return runSharedFile(dir, c.Calls)
+	case "sequence:unusual-messages":
+		return runUnusualMessages(c.Calls)
 	}
 	return runSharedSlice(c.Variant, c.Calls)
 }
@@ -215,6 +278,15 @@ func sequenceFamilies(rep *ev.Reporter) map[string]int {
 				report(seqCase{Scenario: "sequence:shared-slice", Variant: variant, Calls: append(append([]string(nil), apps...), msgs...)})
 				counts["shared-slice"]++
 			}
+		}
+	}
+	// every message of the list alone, and every ordered pair
+	for i := range unusualMessages {
+		report(seqCase{Scenario: "sequence:unusual-messages", Calls: []string{fmt.Sprint(i)}})
+		counts["unusual-messages"]++
+		for j := range unusualMessages {
+			report(seqCase{Scenario: "sequence:unusual-messages", Calls: []string{fmt.Sprint(i), fmt.Sprint(j)}})
+			counts["unusual-messages"]++
 		}
 	}
 	return counts
